@@ -13,6 +13,13 @@ where the container / receiver is a chain `name(.attr)*` resolved against the li
 A location is kept only if some thread writes it and another thread touches it, so a private dict (fresh identity per
 evaluation) or an object owned by one thread's Environment produces no event at all.
 
+Containers: a method call on a resolved dict / list / set (setdefault, update, pop, append, add, get, ...), `in`, and
+subscript loads/stores/deletes are R / W events on (container identity, key) - key = the constant or `name(.attr)*`
+first argument / subscript when it can be read, else "*" (which coarsens the whole container to one location).
+Objects found, at the end of a solo run, stored at an accessed location at most two hops from a module global or a
+class attribute (e.g. the dict cached in a class-level table) are named by that location instead of by identity, so the
+objects two solo runs each put there are one namespace, as they would be in a concurrent run.
+
 Process-wide interpreter state behind accessor functions (sys.set/getrecursionlimit, sys.set/getswitchinterval,
 decimal.setcontext/getcontext/localcontext, locale.setlocale) is a pseudo location `interpreter::<name>` of the one
 namespace oracle.INTERPRETER: loading the accessor (LOAD_ATTR on the resolved module, or a global bound to the very
@@ -23,6 +30,7 @@ accesses of a thread, placed at that stretch's deepest stack point - where the l
 import builtins
 import collections
 import dis
+import hashlib
 import os
 import sys
 import types
@@ -37,6 +45,18 @@ SUBSCR_OPS = {"STORE_SUBSCR": "W", "DELETE_SUBSCR": "W", "BINARY_SUBSCR": "R"}
 SIMPLE = {"LOAD_FAST", "LOAD_FAST_CHECK", "LOAD_DEREF", "LOAD_GLOBAL", "LOAD_NAME", "LOAD_CONST"}
 _tables = {}
 _accessors = {}
+KEYED = {"get": "R", "setdefault": "RW", "pop": "RW", "__getitem__": "R", "__contains__": "R", "__setitem__": "W", "__delitem__": "W"}
+WHOLE = {dict: {"update": "W", "clear": "W", "popitem": "RW", "keys": "R", "values": "R", "items": "R", "copy": "R"},
+         list: {m: "W" for m in ("append", "extend", "insert", "remove", "pop", "clear", "sort", "reverse")} | {"index": "R", "count": "R", "copy": "R"},
+         set: {m: "W" for m in ("add", "discard", "remove", "pop", "clear", "update", "difference_update", "intersection_update",
+                                 "symmetric_difference_update")} | {"copy": "R", "issubset": "R", "issuperset": "R", "union": "R"}}
+CONTAINERS = (dict, list, set)
+HOPS = 2        # objects up to this many stores away from a module global / class attribute are named by location
+
+
+def short(name):
+    name = " ".join(str(name).split())
+    return name if len(name) <= 32 else f"{name[:20]}..#{hashlib.sha1(name.encode()).hexdigest()[:8]}"
 
 
 def accessors():
@@ -149,7 +169,7 @@ class Extractor:
             return
         h = self.hist                          # last executed (frame, instruction) pairs of this thread
         h.append((id(frame), k))
-        del h[:-8]
+        del h[:-12]
         op = ins[k].opname
         name = ins[k].argval
         if op in GLOBAL_OPS:
@@ -171,6 +191,8 @@ class Extractor:
             if obj is MISSING:
                 self.stats["unresolved-attr-receiver"] += 1
                 return
+            if ATTR_OPS[op] == "R" and isinstance(obj, CONTAINERS):
+                return self.method(frame, ins, k, obj, name)
             if ATTR_OPS[op] == "W":
                 space = obj.__dict__ if isinstance(obj, types.ModuleType) else obj
             else:
@@ -180,16 +202,83 @@ class Extractor:
                     return
                 self.accessor(frame, value)
             self.emit(frame, ATTR_OPS[op], space, name)
-        elif op in SUBSCR_OPS:
-            if k < 2 or ins[k - 1].opname not in SIMPLE:
+        elif op in SUBSCR_OPS or op == "CONTAINS_OP":
+            # stack: [.., container, key] (subscripts)   /   [.., item, container] (`in`)
+            first, second = self.span(ins, k - 1), None
+            if first and k - 1 - first >= 0:
+                second = self.span(ins, k - 1 - first)
+            if not first or not second:
                 self.stats["unresolved-subscript"] += 1
                 return
-            key = self.chain(frame, ins, k - 1, h, 1)
-            cont = self.chain(frame, ins, k - 2, h, 2)
-            if isinstance(cont, dict) and isinstance(key, (str, int)) and key is not MISSING:
-                self.emit(frame, SUBSCR_OPS[op], cont, key if isinstance(key, str) else repr(key))
-            elif cont is MISSING or (isinstance(cont, dict) and key is MISSING):
+            top = self.chain(frame, ins, k - 1, h, 1)
+            below = self.chain(frame, ins, k - 1 - first, h, 1 + first)
+            cont, key = (top, below) if op == "CONTAINS_OP" else (below, top)
+            if isinstance(cont, CONTAINERS):
+                self.item(frame, SUBSCR_OPS.get(op, "R"), cont, key)
+            elif cont is MISSING:
                 self.stats["unresolved-subscript"] += 1
+
+    def span(self, ins, e):
+        """number of instructions of the `name(.attr)*` chain ending at index e (0: not such a chain)"""
+        n = 1
+        while e >= 0 and ins[e].opname == "LOAD_ATTR":
+            e, n = e - 1, n + 1
+        return n if e >= 0 and ins[e].opname in SIMPLE else 0
+
+    def item(self, frame, kinds, cont, key):
+        try:
+            hash(key)
+            name = "*" if key is MISSING or not isinstance(key, (str, int, float, bytes, tuple, bool, type(None))) else \
+                (key if isinstance(key, str) else repr(key))
+        except TypeError:
+            name = "*"
+        for kind in kinds:
+            self.emit(frame, kind, cont, name)
+
+    def method(self, frame, ins, k, cont, name):
+        """`cont.name(...)` about to be called, cont a dict / list / set: the call's effect on the container"""
+        base = next(t for t in CONTAINERS if isinstance(cont, t))
+        if name in WHOLE[base]:
+            return self.item(frame, WHOLE[base][name], cont, MISSING)
+        if base is not dict or name not in KEYED:
+            return
+        # first argument: forward from k+1 to the CALL that consumes this method; it ends at the last point of depth 1
+        depth, last, j = 0, None, k + 1
+        while j < len(ins):
+            i = ins[j]
+            if i.opname == "CALL" and depth == i.arg:
+                break
+            if i.opname != "KW_NAMES":
+                if "JUMP" in i.opname or i.opname.startswith(("RETURN", "RAISE", "FOR_ITER", "SEND", "YIELD")):
+                    last = None
+                    break
+                depth += dis.stack_effect(i.opcode, i.arg)
+                if depth == 1:
+                    last = j
+            j += 1
+        key = MISSING
+        if last is not None and self.span(ins, last) == last - k:
+            key = self.forward(frame, ins, k + 1, last)
+        self.item(frame, KEYED[name], cont, key)
+
+    def forward(self, frame, ins, a, b):
+        """value of the not yet executed chain ins[a..b] (base load + LOAD_ATTRs), by plain lookups"""
+        i = ins[a]
+        op, name = i.opname, i.argval
+        if op == "LOAD_CONST":
+            v = name
+        elif op in ("LOAD_FAST", "LOAD_FAST_CHECK", "LOAD_DEREF"):
+            v = frame.f_locals.get(name, MISSING)
+        elif op in ("LOAD_GLOBAL", "LOAD_NAME"):
+            loc = frame.f_locals if op == "LOAD_NAME" else {}
+            v = loc[name] if name in loc else frame.f_globals.get(name, vars(builtins).get(name, MISSING))
+        else:
+            return MISSING
+        for i in ins[a + 1:b + 1]:
+            if v is MISSING:
+                break
+            v = static_attr(v, i.argval)[1]
+        return v
 
     def accessor(self, frame, value):
         try:
@@ -208,8 +297,8 @@ class Extractor:
         fn = os.path.basename(c.co_filename)
         q = c.co_qualname
         site = q if fn != "<string>" else ("<string>" if q == "<module>" else f"<string>.{q}")
-        self.cur["acc"].append({"kind": kind, "ns": ns_id(space), "name": name, "site": f"{site}:{name}",
-                                "at": f"{fn}:{q}:{frame.f_lineno}"})
+        self.cur["acc"].append({"kind": kind, "ns": ns_id(space), "name": name, "site": f"{site}:{short(name)}",
+                                "at": f"{fn}:{q}:{frame.f_lineno}", "space": space})
         self.stats["accesses"] += 1
         if fn != "<string>":
             self.funcs.add(f"{fn}:{q}")
@@ -220,6 +309,49 @@ def trace(fn, keep):
     with oracle.Monitor(ex.line, ex.instruction):
         r = fn()
     return r, ex
+
+
+def current(space, name):
+    """what is stored now at location (space, name), by plain lookups"""
+    if name == "*":
+        return MISSING
+    if isinstance(space, dict):
+        return dict.get(space, name, MISSING)          # never a subclass's own get()
+    if isinstance(space, (list, set)):
+        return MISSING
+    if isinstance(space, type):
+        return static_attr(space, name)[1]
+    d = getattr(space, "__dict__", None)
+    return d.get(name, MISSING) if isinstance(d, dict) else MISSING
+
+
+def aliases(steps, roots, keep):
+    """identity of a mutable object -> the accessed location, reachable from a module global / class attribute, at which
+    the finished solo run left it.  Two runs that each leave their own object there get one namespace."""
+    alias, rooted, grew = {}, {r: 0 for r in roots}, True        # namespace -> hops from a module / class namespace
+    while grew:
+        grew = False
+        for s in steps:
+            for a in s["acc"]:
+                hops = rooted.get(a["ns"])
+                if hops is None or hops >= HOPS:
+                    continue
+                v = current(a["space"], a["name"])
+                plain = isinstance(v, CONTAINERS) or (isinstance(getattr(v, "__dict__", None), dict)
+                                                      and not isinstance(v, (type, types.ModuleType, types.FunctionType)))
+                if plain and id(v) not in rooted:
+                    alias[id(v)] = (a["ns"], a["name"])
+                    rooted[id(v)] = hops + 1
+                    keep.append(v)
+                    grew = True
+    return alias
+
+
+def canonical(ns, alias, depth=0):
+    if ns in alias and depth < 6:
+        base, name = alias[ns]
+        return ("via", canonical(base, alias, depth + 1), name)
+    return ns
 
 
 def implicit_limit_reads(per):
@@ -258,7 +390,7 @@ def scenario(runner, programs, bindings, evals=1, warm=False):
     """-> dict(solo, threads=[[step...]], locations, stats, errors, funcs).  A step is
     {"t", "k", "gate": {t, file, func, line, nth, occ}, "acc": [{kind, loc, site, at}]}, relevant accesses only."""
     state = oracle.initial_state(runner, warm)
-    errors, keep, per, stats, funcs = [], [], [], collections.Counter(), set()
+    errors, keep, per, stats, funcs, coarse = [], [], [], collections.Counter(), set(), []
     try:
         plain = oracle.solo(runner, programs, bindings, evals, state)
         for t, (src, b) in enumerate(zip(programs, bindings)):
@@ -271,6 +403,13 @@ def scenario(runner, programs, bindings, evals=1, warm=False):
                 if (ns, name) not in written and not (how == "mutated" and any(w[0] == id(state.spaces[ns][1].get(name)) for w in written)):
                     errors.append(f"thread {t}: {lab}.{name} was {how} by the workload but no write event was extracted "
                                   f"(extraction incomplete for this tree)")
+            alias = aliases(ex.steps, set(state.spaces), keep)
+            whole = {a["ns"] for s in ex.steps for a in s["acc"] if a["name"] == "*"}
+            for s in ex.steps:
+                for a in s["acc"]:
+                    a["raw"], a["ns"] = a["ns"], canonical(a["ns"], alias)
+            coarse.append({canonical(ns, alias) for ns in whole})
+            stats["aliased-objects"] += len(alias)
             per.append(ex.steps)
             stats.update(ex.stats)
             funcs |= ex.funcs
@@ -279,6 +418,12 @@ def scenario(runner, programs, bindings, evals=1, warm=False):
         raise
     state.restore()
     stats["implicit-limit-reads"] = implicit_limit_reads(per)
+    for ns in set().union(*coarse) if coarse else ():     # a whole-container access makes the container one location
+        for steps in per:
+            for s in steps:
+                for a in s["acc"]:
+                    if a["ns"] == ns:
+                        a["name"] = "*"
     writers, users = collections.defaultdict(set), collections.defaultdict(set)
     for t, steps in enumerate(per):
         for s in steps:
@@ -291,12 +436,14 @@ def scenario(runner, programs, bindings, evals=1, warm=False):
     private = {}
 
     def label(ns):
+        if isinstance(ns, tuple):
+            return f"{label(ns[1])}[{short(ns[2])}]"
         return lab.get(ns) or private.setdefault(ns, f"object#{len(private)}")
     threads = []
     for t, steps in enumerate(per):
         out = []
         for s in steps:
-            acc = [{"kind": a["kind"], "loc": f"{label(a['ns'])}::{a['name']}", "site": a["site"], "at": a["at"]}
+            acc = [{"kind": a["kind"], "loc": f"{label(a['ns'])}::{short(a['name'])}", "site": a["site"], "at": a["at"]}
                    for a in s["acc"] if (a["ns"], a["name"]) in shared]
             if acc:
                 f, q, line, nth = s["key"]
@@ -307,5 +454,5 @@ def scenario(runner, programs, bindings, evals=1, warm=False):
     stats["shared-written-locations"] = len(shared)
     stats["relevant-steps"] = sum(len(x) for x in threads)
     stats["relevant-accesses"] = sum(len(s["acc"]) for x in threads for s in x)
-    return {"solo": plain, "threads": threads, "locations": sorted(f"{label(ns)}::{n}" for ns, n in shared),
+    return {"solo": plain, "threads": threads, "locations": sorted(f"{label(ns)}::{short(n)}" for ns, n in shared),
             "stats": dict(stats), "errors": errors, "funcs": sorted(funcs), "state": state}
